@@ -53,3 +53,26 @@ def snapshot_row(r: dict[str, Any]) -> dict[str, Any]:
 
 def same_cell(a: Any, b: Any) -> bool:
     return bool(a == b) if (a is not None and b is not None) else (a is None and b is None)
+
+
+def nest_at(conn_a, k_sym, run_b, max_k: int = 60):
+    """One pre-emption at statement granularity: worker B's ``run_b()`` runs completely just before
+    worker A's k-th statement (k symbolic: every position is explored).  A position at which A
+    holds an open write transaction is not enabled (in SQLite B would wait for A's commit), so the
+    pre-emption slips to A's next statement outside a transaction.  Returns a dict with the
+    position actually used (None if the run of A had fewer statements)."""
+    state = {"n": 0, "armed": False, "done": False, "at": None}
+
+    def pre(conn, st) -> None:
+        if state["done"]:
+            return
+        state["n"] += 1
+        if not state["armed"] and state["n"] <= max_k and hx.decide_eq(k_sym, state["n"]):
+            state["armed"] = True
+        if state["armed"] and not conn.in_transaction:
+            state["done"] = True
+            state["at"] = state["n"]
+            run_b()
+
+    conn_a.pre_statement = pre
+    return state
